@@ -35,6 +35,13 @@ pub fn cfg_for(i: u64, rng: &mut crate::rng::Rng) -> GenCfg {
         5 => {
             cfg.panic_pct = 40;
         }
+        6 => {
+            // no probe literals: asserts and unwraps depend on the witnesses directly, so that the
+            // witness assignments split into finishing and panicking runs more evenly
+            cfg.probes = false;
+            cfg.max_witnesses = 3;
+            cfg.ty_depth = 1;
+        }
         _ => {}
     }
     cfg.max_depth = 2 + rng.below(3);
@@ -62,7 +69,7 @@ pub fn one_program(cx: &mut Ctx, i: u64) {
     for (k, v) in &g.forms {
         cx.report.count(&format!("form_{k}"), *v as u64);
     }
-    let style = Style::plain();
+    let style = if i % 5 == 4 { Style::random(&mut rng) } else { Style::plain() };
     let p = match prepare(cx, g, &mut rng, &style) {
         Ok(p) => p,
         Err(e) => {
@@ -100,6 +107,11 @@ pub fn one_program(cx: &mut Ctx, i: u64) {
         };
         cmrs.push(built.commit.cmr);
         for (wi, w) in assignments.iter().enumerate() {
+            if wi > 8 && cx.start.elapsed().as_secs_f64() > cx.budget_s * 1.5 {
+                // time box: the rest of a large exhaustive witness space is skipped (counted)
+                cx.report.count("witness_spaces_cut_short", 1);
+                break;
+            }
             let r = run_reference(cx, &p, w, debug);
             if let Err(Stop::Refuse(why)) = &r.verdict {
                 cx.report.inconclusive(json!({"case": i, "why": format!("reference refused: {why}"), "program": p.text()}));
